@@ -16,11 +16,31 @@ import (
 )
 
 func (r *Run) callSeqOf(fd *FuncDecl) []string {
+	return r.callSeqRec(fd, map[*FuncDecl]bool{}, 0)
+}
+
+// unexportedHelper resolves a static call to an unexported function of the same module (inlined by
+// the per-function inventories so that extracting a helper does not change them).
+func (r *Run) unexportedHelper(info *types.Info, c *ast.CallExpr) *FuncDecl {
+	f := typeutil.StaticCallee(info, c)
+	if f == nil || !InModule(f) || f.Exported() {
+		return nil
+	}
+	return r.Prog.Funcs[f.Origin()]
+}
+
+func (r *Run) callSeqRec(fd *FuncDecl, onPath map[*FuncDecl]bool, depth int) []string {
+	if onPath[fd] || depth > 4 {
+		return nil
+	}
+	onPath[fd] = true
+	defer delete(onPath, fd)
 	var out []string
 	for _, u := range r.G.unitsOf(fd) {
 		type item struct {
-			pos  int
-			text string
+			pos    int
+			text   string
+			helper *FuncDecl
 		}
 		var items []item
 		ast.Inspect(u.Body, func(n ast.Node) bool {
@@ -52,12 +72,15 @@ func (r *Run) callSeqOf(fd *FuncDecl) []string {
 				k += "(" + strings.Join(consts, ",") + ")"
 			}
 			// evaluation order: arguments before the call itself → order by end position
-			items = append(items, item{int(c.End()), k})
+			items = append(items, item{int(c.End()), k, r.unexportedHelper(u.Info, c)})
 			return true
 		})
 		sort.SliceStable(items, func(i, j int) bool { return items[i].pos < items[j].pos })
 		for _, it := range items {
 			out = append(out, it.text)
+			if it.helper != nil {
+				out = append(out, r.callSeqRec(it.helper, onPath, depth+1)...)
+			}
 		}
 	}
 	return out
